@@ -1132,6 +1132,11 @@ impl Sim {
     /// Oracles on every transmit (sizes, amplification, silence after drain).
     fn on_transmit(&mut self, node: usize, ch: usize, before: &Snapshot, t: &quinn_proto::Transmit, _buf: &[u8]) {
         let nowoff = self.now;
+        // C16 "the buffer-space query agrees with the configured send-buffer bound": with an empty send queue no byte
+        // is accounted as queued (the query is bound - queued bytes)
+        if before.dgram_out_len == 0 && before.dgram_out_total != 0 {
+            self.fail("dgram-queued-bytes-with-empty-queue", format!("node {node} conn {ch}: the datagram send queue is empty but {} bytes are accounted as queued (send_buffer_space() is short by that much; a send() that fits is refused or evicts)", before.dgram_out_total));
+        }
         // C07: the sender's own record of the packets just built, read without consuming it
         self.av.on_tx(node, ch, &self.nodes[node].conns[&ch].conn, t, _buf);
         if let Some(mut f) = self.tx_tap.take() {
@@ -1295,6 +1300,13 @@ impl Sim {
     /// remains to happen (no datagram on the wire, no timer).
     pub fn step(&mut self, tick: &mut dyn FnMut(&mut Sim)) -> bool {
         if self.fatal {
+            return false;
+        }
+        if self.trace.len() > 4_000_000 {
+            // an execution whose trace outgrows any legitimate run (normal ones stay far below a million records) is
+            // running away under the code being checked: end it with a verdict instead of exhausting memory
+            self.fail("execution-exceeded-trace-budget", format!("{} trace records after {} steps at t={} ns", self.trace.len(), self.steps, self.now));
+            self.fatal = true;
             return false;
         }
         let t0 = self.now;
